@@ -29,7 +29,7 @@ vars == <<l, g, viol, drift>>
 G0 == [family |-> "-", cs |-> << >>, app |-> << >>, gseq |-> << >>, cb |-> << >>, cbe |-> << >>, open |-> "",
        last |-> [ev |-> "-", k |-> "-", r |-> "-"], setcb |-> {}, faults |-> {}, lied |-> FALSE,
        ustop |-> FALSE, errseen |-> FALSE, inapp |-> << >>, appmax |-> 0, conns |-> << >>, killed |-> 0,
-       stops |-> {}, started |-> {}, expectKill |-> FALSE, mutex |-> "-", ignore |-> FALSE]
+       stops |-> {}, started |-> {}, expectKill |-> FALSE, mutex |-> "-", ignore |-> FALSE, lcb |-> 0]
 
 Init == l = 1 /\ g = G0 /\ viol = {} /\ drift = {}
 
@@ -111,12 +111,15 @@ StepFault(e) ==
 StepCbS(e) ==
   LET recv == e.by = "recv"
       gs2 == IF e.k = "g" THEN Append(g.gseq, e.r) ELSE g.gseq IN
-  /\ g' = [g EXCEPT !.cb = Append(@, [k |-> e.k, r |-> e.r, by |-> e.by]),
+  /\ g' = [g EXCEPT !.lcb = IF g.family = "local" THEN @ + 1 ELSE @,
+                    !.cb = Append(@, [k |-> e.k, r |-> e.r, by |-> e.by]),
                     !.gseq = gs2,
                     !.open = IF recv THEN e.k \o ":" \o e.r ELSE @,
                     !.last = IF recv THEN [ev |-> "CbS", k |-> e.k, r |-> e.r] ELSE @]
   /\ viol' = viol
        \cup FailIf(e.r # "F" /\ CbStarted(e.k, e.r), V("CallbackOrder", "callback_ran_twice_" \o e.k))
+       \cup FailIf(g.family = "local" /\ g.mutex = "shared" /\ (g.inapp # << >> \/ g.lcb > 0),
+                   V("LocalClientSerialises", "callback_ran_during_application_call_or_callback"))
        \cup FailIf(recv /\ g.open # "", V("CallbackOrder", "callbacks_overlap"))
        \cup FailIf(e.k = "g" /\ ~g.lied /\ g.family = "sock" /\ ~Pfx(gs2, g.app),
                    V("CallbackOrder", "global_callback_out_of_request_order"))
@@ -132,7 +135,8 @@ StepCbS(e) ==
   /\ UNCHANGED drift
 
 StepCbE(e) ==
-  /\ g' = [g EXCEPT !.cbe = Append(@, [k |-> e.k, r |-> e.r]),
+  /\ g' = [g EXCEPT !.lcb = IF g.family = "local" /\ @ > 0 THEN @ - 1 ELSE @,
+                    !.cbe = Append(@, [k |-> e.k, r |-> e.r]),
                     !.open = IF e.by = "recv" THEN "" ELSE @,
                     !.last = IF e.by = "recv" THEN [ev |-> "CbE", k |-> e.k, r |-> e.r] ELSE @]
   /\ UNCHANGED <<viol, drift>>
@@ -186,6 +190,8 @@ StepAppS(e) ==
   /\ g' = [g EXCEPT !.inapp = ins, !.appmax = IF Len(ins) > @ THEN Len(ins) ELSE @]
   /\ viol' = viol \cup FailIf(g.inapp # << >> /\ g.mutex = "shared",
                               V("LocalClientSerialises", "application_entered_concurrently_" \o e.m))
+                   \cup FailIf(g.lcb > 0 /\ g.mutex = "shared",
+                              V("LocalClientSerialises", "application_entered_during_callback_" \o e.m))
   /\ UNCHANGED drift
 
 StepAppE(e) ==
